@@ -14,6 +14,7 @@ pub mod c12;
 pub mod c13;
 pub mod c14;
 pub mod c15;
+pub mod c16;
 pub mod c20;
 
 pub fn run(ctx: &mut Ctx) -> bool {
@@ -32,6 +33,7 @@ pub fn run(ctx: &mut Ctx) -> bool {
         "C13" => c13::run(ctx),
         "C14" => c14::run(ctx),
         "C15" => c15::run(ctx),
+        "C16" => c16::run(ctx),
         "C20" => c20::run(ctx),
         _ => return false,
     }
